@@ -121,6 +121,7 @@ class GroupBuild:
         self.sources = {}
         self.unit_meta = {}
         self.canaries = []
+        self.gaps = []
 
     def src(self, rel):
         if rel not in self.sources:
@@ -189,7 +190,13 @@ class GroupBuild:
         # modular soundness guard: wherever this function is ASSUMED under another contract file (R5 stub in another group),
         # the contract proved here must imply it: a wrapper with the assumed contract whose body just calls the unit
         for k_as, other in enumerate(assumed_as):
+            extra_req = None
+            if isinstance(other, tuple):
+                other, extra_req = other
+                self.gaps.append('%s is assumed by its callers under %s WITHOUT the precondition `%s` that its proof needs' % (name, other, extra_req))
             osecs = parse_spec(os.path.join(VERUS_DIR, 'contracts', other))
+            if extra_req:
+                osecs['contract'] = '    requires\n        %s,\n' % extra_req + osecs['contract']
             ol = []
             oorig, onew = X.emit_fn(self.src(rel), name, impl=impl, nth=nth, contract=osecs['contract'], stub=True, wrap_impl=None, log=ol, resname=resname)
             w = self.canary(onew, name, True, None)
